@@ -1,7 +1,7 @@
 ------------------------ MODULE Trace_Distribution ------------------------
 (* Validates logs of the REAL api.NewDistribution against Distribution.                          *)
 (* One ndjson line = one trace:                                                                   *)
-(*  {"dist":"regular|random|none","in_ms":I,"frac":0|1,"out_ms":O,"out_frac":0|1,                 *)
+(*  {"dist":"regular|random|none","in_ms":I,"frac":0|1,"out_ms":O,"out_frac":0|1,"noevals":bool,  *)
 (*   "ev":[{"out":v,"rep":k,"evals":E,"rate":R}, ...]}                                            *)
 (* out = value handed out by k consecutive calls (run-length encoded, never across a cycle         *)
 (* boundary), evals = number of evaluations of the underlying rate function after the first of     *)
@@ -33,7 +33,8 @@ Next == /\ i < Len(T[tr].ev)
              /\ i' = i + 1
              /\ D!Apply(e.rate, e.out, e.rep)
              /\ ok' = (/\ D!Allowed(e.rate, e.out, e.rep)
-                       /\ e.evals = evals + (IF rem = 0 THEN 1 ELSE 0))   \* evaluated once per cycle, at its start
+                       \* evaluated once per cycle, at its start (not visible when the underlying function is f1's own)
+                       /\ (T[tr].noevals \/ e.evals = evals + (IF rem = 0 THEN 1 ELSE 0)))
              /\ UNCHANGED <<tr, acc>>
 
 Accepted == ok
